@@ -1,3 +1,4 @@
+import G3D.Proofs.KernelsTieReal
 import G3D.Props.C10
 import G3D.Props.Classes
 #print axioms G3D.Props.C10.distance_is_minimum
@@ -6,3 +7,11 @@ import G3D.Props.Classes
 #print axioms G3D.Props.C10.distance_dispatch_documented
 #print axioms G3D.Props.C10.distance_dispatch_rest_raises
 #print axioms G3D.Props.Classes.geobody_forwards
+#print axioms G3D.KernelsTieReal.distPointPoint_cast
+#print axioms G3D.KernelsTieReal.distPointLine_tie
+#print axioms G3D.KernelsTieReal.distPointPlane_tie
+#print axioms G3D.KernelsTieReal.distLineLineSkew_tie
+#print axioms G3D.KernelsTieReal.distLineLinePar_tie
+#print axioms G3D.KernelsTieReal.distLinePlanePar_tie
+#print axioms G3D.KernelsTieReal.distLinePlaneCross_tie
+#print axioms G3D.KernelsTieReal.dist_paths
